@@ -71,6 +71,66 @@ def permute_results_unit(seed=0):
     return None
 
 
+def tag_suffix_unit(seed=1):
+    """results stored under f"{base}_{suffix}" (Observable(tag_suffix=...)) are per-atom containers of the
+    same kind as `base` and must come home to register order too; other kinds stay untouched"""
+    from emu_mps.mps_backend_impl import MPSBackendImpl
+    rnd = random.Random(seed)
+    for trial in range(20):
+        n = rnd.randint(3, 6)
+        perm = list(range(n))
+        while perm == sorted(perm):
+            rnd.shuffle(perm)
+        ids = [f"q{a}" for a in range(n)]
+        impl = object.__new__(MPSBackendImpl)
+        impl.qubit_permutation = torch.tensor(perm)
+        bits = "".join("1" if k == 0 else "0" for k in range(n))            # site 0 excited
+        occ = torch.tensor([10.0 * (k + 1) for k in range(n)])
+        corr = torch.tensor([[100.0 * i + j for j in range(n)] for i in range(n)])
+        store = {"occupation": [occ.clone()], "occupation_x": [occ.clone()], "bitstrings_z": [Counter({bits: 7})],
+                 "correlation_matrix_y": [corr.clone()], "energy_x": [torch.tensor(-1.5)], "energy": [torch.tensor(2.5)]}
+        res = FakeResults([ids[p] for p in perm], store)
+        out = impl.permute_results(res, True)
+        where = f"perm {perm} (site k holds atom perm[k])"
+        for tag in ("occupation", "occupation_x"):
+            o = torch.as_tensor(out._results[tag][0])
+            if any(o[perm[k]] != occ[k] for k in range(n)):
+                return (f"permute_results: result tag {tag!r}: site-order occupation {occ.tolist()} became {o.tolist()}, "
+                        f"expected register position perm[k] to show site k's value; {where}")
+        (s, c), = out._results["bitstrings_z"][0].items()
+        if c != 7 or any(s[perm[k]] != bits[k] for k in range(n)):
+            return f"permute_results: result tag 'bitstrings_z': site-order bitstring {bits!r} became {s!r}; {where}"
+        m = torch.as_tensor(out._results["correlation_matrix_y"][0])
+        if any(m[perm[i], perm[j]] != corr[i, j] for i in range(n) for j in range(n)):
+            return f"permute_results: result tag 'correlation_matrix_y' was not moved to [perm[i], perm[j]]; {where}"
+        if float(out._results["energy_x"][0]) != -1.5 or float(out._results["energy"][0]) != 2.5:
+            return f"permute_results: a result that is not per atom (energy / energy_x) was changed; {where}"
+    return None
+
+
+def tag_suffix_run():
+    """end to end: Occupation() and Occupation(tag_suffix='x') observe the same thing in one run"""
+    from emu_mps import MPSBackend
+    from pulser.backend import CorrelationMatrix, Occupation
+    obs = [Occupation(evaluation_times=[1.0]), Occupation(evaluation_times=[1.0], tag_suffix="x"),
+           CorrelationMatrix(evaluation_times=[1.0], tag_suffix="y")]
+    impl, sd, cfg = N.make_impl(True, observables=obs)
+    perm = impl.qubit_permutation.tolist()
+    if not cfg.optimize_qubit_ordering or perm == sorted(perm):
+        return None
+    res = MPSBackend._run_from_sequence_data(sd, cfg)
+    a = torch.as_tensor(res.get_result("occupation", 1.0)).real
+    b = torch.as_tensor(res.get_result("occupation_x", 1.0)).real
+    d = torch.as_tensor(res.get_result("correlation_matrix_y", 1.0)).real.diagonal()
+    r = lambda v: [round(float(x), 5) for x in v]
+    if not torch.allclose(a, b, atol=1e-9):
+        return (f"one run, perm {perm}: occupation {r(a)} but occupation_x {r(b)} (same observable with tag_suffix='x' "
+                "is left in site order)")
+    if not torch.allclose(a.to(d.dtype), d, atol=1e-6):
+        return f"one run, perm {perm}: occupation {r(a)} but diagonal of correlation_matrix_y {r(d)}"
+    return None
+
+
 def init_unit():
     """__init__: atom_order == qubit_ids[perm]; identity without optimisation; drives follow the sites"""
     om, de, ph = N.local_drives()
